@@ -33,6 +33,7 @@ KINDS = {
     20: 'an update with a valid header from the authorised account failed',
     21: 'a step panicked',
     22: 'after a successful update the client type changed / the TSS key was not rotated / the consensus state of the header is not stored',
+    24: 'an ETH proposal whose consensus state root is not (as a 32-byte hash) the state root of its header was installed',
     23: 'an installed, unexpired client: the proof gate at the installed height did not open once the delay had passed (or opened before), '
         'or the installed consensus state / its metadata vanished',
 }
@@ -253,6 +254,8 @@ def finding_key(kind, results, h, s):
             types_before.append(st['op']['client']['t'])
     if kind == 19:
         return 'consensus-type-mismatch'
+    if kind == 24:
+        return 'eth-foreign-root-prune'
     if kind == 16 and op['k'] == 'upgrade' and op['client']['t'] == 'tm':
         return 'tm-upgrade-no-metadata'
     if kind in (17, 20) and len(set(types_before)) > 1 or (kind == 17 and op['k'] == 'toggle'):
